@@ -432,6 +432,7 @@ macro_rules! gen_builder {
           Op::ObserveOn => b.$observe_on(cx.sched.clone()).box_it(),
           Op::SubscribeOn => b.subscribe_on(cx.sched.clone()).box_it(),
           Op::Debounce(d) => b.debounce(ms(*d), cx.sched.clone()).box_it(),
+          Op::DebounceUs(d) => b.debounce(Duration::from_micros(*d), cx.sched.clone()).box_it(),
           Op::ThrottleTime(d, e) => $tt!(b, *d, *e, cx.sched.clone()).box_it(),
           Op::Throttle(base, e) => {
             let base = *base;
